@@ -6,6 +6,7 @@ import (
 	"fmt"
 	"os"
 	"path/filepath"
+	"sort"
 	"strings"
 	"time"
 
@@ -397,6 +398,36 @@ func (e *Env) exec(op Op, ack *bool) error {
 			return nil
 		}
 		return os.RemoveAll(litestream.NewDB(e.DBPath).MetaPath())
+	case "breakremote": // transient replica fault: the newest level-0 file on the replica cannot be read (a directory sits at its path)
+		if e.Cfg.NoLitestream {
+			return nil
+		}
+		ms, _ := filepath.Glob(filepath.Join(e.RepDir, "ltx", "0", "*.ltx"))
+		if len(ms) == 0 {
+			return nil
+		}
+		sort.Strings(ms)
+		newest := ms[len(ms)-1]
+		if fi, err := os.Stat(newest); err != nil || fi.IsDir() {
+			return nil
+		}
+		if err := os.Rename(newest, newest+".hidden"); err != nil {
+			return err
+		}
+		return os.Mkdir(newest, 0o755)
+	case "fixremote": // the fault goes away
+		if e.Cfg.NoLitestream {
+			return nil
+		}
+		ms, _ := filepath.Glob(filepath.Join(e.RepDir, "ltx", "0", "*.ltx.hidden"))
+		for _, m := range ms {
+			orig := strings.TrimSuffix(m, ".hidden")
+			os.Remove(orig)
+			if err := os.Rename(m, orig); err != nil {
+				return err
+			}
+		}
+		return nil
 	case "blocktmp": // local storage fault: the staging file of the L0 file for TXID pos+A cannot be created (a directory sits at its path)
 		if e.LS == nil || e.Cfg.NoLitestream {
 			return nil
